@@ -667,8 +667,10 @@ func isIgnoreUnexportedSet(f reflect.StructField) (bool, error) {
 
 	allowed, err := strconv.ParseBool(tag)
 	if err != nil {
+		// The parse error goes into the message rather than the chain:
+		// RootCause of a failure that originates in dig must be a dig.Error.
 		err = newErrInvalidInput(
-			fmt.Sprintf("invalid value %q for %q tag on field %v", tag, _ignoreUnexportedTag, f.Name), err)
+			fmt.Sprintf("invalid value %q for %q tag on field %v: %v", tag, _ignoreUnexportedTag, f.Name, err), nil)
 	}
 
 	return allowed, err
